@@ -62,3 +62,83 @@ Proof.
     + rewrite (nth_overflow (map2 _ _ _)) by (rewrite map2_length; lia).
       rewrite (nth_overflow b), (nth_overflow a) by lia. destruct j; cbn; symmetry; exact H0.
 Qed.
+
+(* ---------- the property's words ---------- *)
+Definition locked_of (s : state) : list suballoc := al_locked (st_alloc s).
+Definition bals_of (s : state) : list (list Z) := al_bals (st_alloc s).
+(* every participant's balance of every asset drops (rises) by exactly its entry in d *)
+Definition debited (cur new d : list (list Z)) : Prop :=
+  same_dims cur d = true /\ same_dims cur new = true /\
+  forall a p, bal_at new a p = (bal_at cur a p - bal_at d a p)%Z.
+Definition credited (cur new d : list (list Z)) : Prop :=
+  same_dims cur d = true /\ same_dims cur new = true /\
+  forall a p, bal_at new a p = (bal_at cur a p + bal_at d a p)%Z.
+(* the locked list is the old one plus exactly this sub-allocation *)
+Definition funded (cur new : state) (id : bytes) (sums : list Z) (imap : list N) (d : list (list Z)) : Prop :=
+  locked_of new = locked_of cur ++ [mkSA id sums imap] /\ debited (bals_of cur) (bals_of new) d.
+(* the locked list is the old one minus exactly the (first) sub-allocation of that channel *)
+Definition settled (cur new : state) (id : bytes) (d : list (list Z)) : Prop :=
+  (exists pre x post, locked_of cur = pre ++ x :: post /\ sa_id x = id
+      /\ (forall y, In y pre -> sa_id y <> id) /\ locked_of new = pre ++ post)
+  /\ credited (bals_of cur) (bals_of new) d.
+
+Lemma sub_debited cur d new x : bals_sub cur d = Some x -> balances_equal x new = true -> debited cur new d.
+Proof.
+  intros H E. apply balances_equal_eq in E. subst x.
+  destruct (operate_at Z.sub cur d new eq_refl H) as (A & B & C). repeat split; assumption.
+Qed.
+Lemma add_credited cur d new x : bals_add cur d = Some x -> balances_equal x new = true -> credited cur new d.
+Proof.
+  intros H E. apply balances_equal_eq in E. subst x.
+  destruct (operate_at Z.add cur d new eq_refl H) as (A & B & C). repeat split; assumption.
+Qed.
+
+Lemma find_sa_spec id l x : find_sa id l = Some x ->
+  exists pre post, l = pre ++ x :: post /\ sa_id x = id /\ forall y, In y pre -> sa_id y <> id.
+Proof.
+  unfold find_sa. induction l as [|y l IH]; cbn [find]; [discriminate|].
+  destruct (bytes_eqb (sa_id y) id) eqn:E.
+  - intro H. injection H as <-. exists [], l. apply bytes_eqb_eq in E. repeat split; auto. intros ? [].
+  - intro H. destruct (IH H) as (pre & post & -> & I & N). exists (y :: pre), post. repeat split; auto.
+    intros z [<-|Hz]; [|auto]. intro C. rewrite C in E.
+    assert (bytes_eqb id id = true) as X by (apply bytes_eqb_eq; reflexivity). rewrite X in E. discriminate.
+Qed.
+Lemma find_sa_none id l : find_sa id l = None -> forall y, In y l -> sa_id y <> id.
+Proof.
+  unfold find_sa. intros H y Hy C. pose proof (find_none _ _ H y Hy) as X. cbn in X.
+  rewrite C in X. assert (bytes_eqb id id = true) as T by (apply bytes_eqb_eq; reflexivity). rewrite T in X. discriminate.
+Qed.
+
+(* removing the sub-allocation found under an id removes exactly that (first) entry *)
+Lemma remove_found id l x r : find_sa id l = Some x -> remove_sa x l = Some r ->
+  exists pre post, l = pre ++ x :: post /\ sa_id x = id /\ (forall y, In y pre -> sa_id y <> id) /\ r = pre ++ post.
+Proof.
+  intro F. destruct (find_sa_spec id l x F) as (pre & post & -> & I & N). intro R.
+  exists pre, post. repeat split; auto. clear F.
+  revert r R. induction pre as [|y pre IH]; intros r R; cbn [app remove_sa] in R.
+  - assert (suballoc_equal x x = true) as E by (apply suballoc_equal_eq; reflexivity). rewrite E in R.
+    injection R as <-. reflexivity.
+  - destruct (suballoc_equal x y) eqn:E.
+    + apply suballoc_equal_eq in E. subst y. exfalso. apply (N x); [left; reflexivity|exact I].
+    + destruct (remove_sa x (pre ++ x :: post)) as [r'|] eqn:R'; [|discriminate]. injection R as <-.
+      cbn [app]. f_equal. apply IH; [|reflexivity]. intros z Hz. apply N. right. exact Hz.
+Qed.
+
+(* ---------- CheckUpdate ---------- *)
+Lemma check_ok_inv m s a g i : snd (step m (OCheckUpdate s a g i)) = OK ->
+  valid_transition m s a = OK /\ sig_valid_for m i s g = true.
+Proof.
+  cbn [step]. unfold sig_valid_for. destruct (valid_transition m s a) eqn:VT; cbn [snd]; try discriminate.
+  destruct (nth_error (mp_parts (ps m)) (N.to_nat i)) as [ad|]; cbn [snd]; [|discriminate].
+  destruct (verify_state ad s g) as [[|]|]; cbn [snd]; try discriminate. auto.
+Qed.
+
+Lemma vt_ok_good m s actor c : current m = Some c -> alloc_valid (st_alloc (tx_st c)) = true ->
+  valid_transition m s actor = OK -> GoodSuccessor m (tx_st c) s actor.
+Proof.
+  intros Hc Vc VT. unfold valid_transition in VT. rewrite Hc in VT.
+  destruct (N.leb_spec (nparts m) actor) as [Ha|Ha]; [discriminate VT|].
+  destruct (generic_valid m (tx_st c) s) eqn:G; [|discriminate VT].
+  apply (generic_valid_iff m (tx_st c) s Vc) in G.
+  destruct G as (H1 & H2 & H3 & H4 & H5 & H6 & H7 & H8). constructor; assumption.
+Qed.
